@@ -3,6 +3,7 @@ package props
 import (
 	"fmt"
 	"path/filepath"
+	"time"
 
 	"verif/harness/core"
 	"verif/harness/mon"
@@ -31,6 +32,8 @@ type c03Case struct {
 	Cfg  core.Config
 	NOps int
 }
+
+func (c03) CaseBudget(string) time.Duration { return 900 * time.Second }
 
 func (c03) Cases(tier string, seed uint64) []core.Case {
 	n := 16
